@@ -148,7 +148,7 @@ func callRet(op string, rsp *jrpc2.Response, err error) {
 func init() { register("C04", c04Scenarios) }
 
 type c04P struct {
-	Callers int    // concurrent Call threads m0..m{n-1}; 0 = one Batch [call b0, note bn, call b1]
+	Callers int    // concurrent Call threads m0..m{n-1}; 0 = one Batch [call b0, note bn, call b1]; -1 = a Batch [note bn, call b0] concurrently with a Call m0
 	Perm    []int  // order in which the peer answers the calls
 	Noise   string // "", dup, unknown, badversion, noid, notify, notify+hook, callback, callback+hook, strid, floatid
 }
@@ -157,6 +157,9 @@ func (p c04P) name() string {
 	who := fmt.Sprintf("callers=%d", p.Callers)
 	if p.Callers == 0 {
 		who = "batch[call,note,call]"
+	}
+	if p.Callers == -1 {
+		who = "batch[note,call]+call"
 	}
 	s := fmt.Sprintf("%s reply-order=%v", who, p.Perm)
 	if p.Noise != "" {
@@ -189,6 +192,8 @@ func c04Scenario(p c04P, b Bounds) *Scenario {
 			var methods []string
 			if p.Callers == 0 {
 				methods = []string{"b0", "b1"}
+			} else if p.Callers == -1 {
+				methods = []string{"b0", "m0"}
 			} else {
 				for k := 0; k < p.Callers; k++ {
 					methods = append(methods, fmt.Sprintf("m%d", k))
@@ -228,6 +233,26 @@ func c04Scenario(p c04P, b Bounds) *Scenario {
 							}
 						}
 						vs.Note("ret", "batch", "ok", strings.Join(parts, " "))
+					})
+				} else if p.Callers == -1 {
+					j.Go("batch", func() {
+						vs.Event("call", "batch")
+						rsps, err := c.Batch(context.Background(), []jrpc2.Spec{{Method: "bn", Notify: true}, {Method: "b0"}})
+						vs.Yield("ret")
+						if err != nil || len(rsps) != 1 {
+							vs.Note("ret", "b0", "err", fmt.Sprint(err, len(rsps)))
+							return
+						}
+						if e := rsps[0].Error(); e != nil {
+							vs.Note("ret", "b0", "jerr", e.Message)
+						} else {
+							vs.Note("ret", "b0", "ok", rsps[0].ID(), rsps[0].ResultString())
+						}
+					})
+					j.Go("m0", func() {
+						vs.Event("call", "m0")
+						rsp, err := c.Call(context.Background(), "m0", nil)
+						callRet("m0", rsp, err)
 					})
 				} else {
 					for k := 0; k < p.Callers; k++ {
@@ -429,6 +454,7 @@ func c04Scenarios(tier string) []*Scenario {
 	for _, pm := range perms(2) {
 		out = append(out, c04Scenario(c04P{Callers: 2, Perm: pm}, b2))
 		out = append(out, c04Scenario(c04P{Callers: 0, Perm: pm}, b2))
+		out = append(out, c04Scenario(c04P{Callers: -1, Perm: pm}, b2))
 		for _, nz := range c04Noises {
 			out = append(out, c04Scenario(c04P{Callers: 2, Perm: pm, Noise: nz}, bn))
 			if !q || nz == "dup" || nz == "callback+hook" {
